@@ -148,9 +148,13 @@ CLAIMED = {
    text="Machine-checked theorems (props/C16.v): after any price stream the N-window is the most recent N prices; momentum over the "
         "(N+1)-window == last/first - 1 (telescoping), 0 while warming up; SMA == mean of the window; volatility^2 == 252 x population "
         "variance of the window's simple returns; and whatever interleaving of appends for whatever assets/lookbacks happened, the window "
-        "for (asset, N) is a function of that asset's own stream and N only. Tied to /repo by the real Momentum/SMA/Volatility signals on "
+        "for (asset, N) is a function of that asset's own stream and N only; and for WHOLE SESSIONS (session_windows_are_the_assets_own_closes): "
+        "in every run that has not raised after its first n clock events - any configuration, schedule, alpha model, sizing mode, market - "
+        "every momentum / moving-average window is the most recent part of its own asset's business-day closes since it was first tracked, "
+        "the tracked list (start members, then new universe members in universe order) and the warm-up counter are functions of the "
+        "universe and the market alone, one close contributing exactly one own price per tracked asset. Tied to /repo by the real Momentum/SMA/Volatility signals on "
         "random interleaved positive streams (after every append) and, for long lookbacks, by the definitions in exact arithmetic.",
-   note=TRUST + "sqrt is applied outside the model (the model carries the variance). The session cadence is proved per event (signals change only at market closes; one close = one observation per tracked asset, new members tracked from then on with an empty window) and exercised on whole runs by the backtest correspondence. Model comparison is limited to lookbacks <= 5 (exact rationals grow with the window); longer lookbacks are compared with the definitions only.",
+   note=TRUST + "sqrt is applied outside the model (the model carries the variance). The session cadence is proved per event and lifted to whole runs by induction over the event list of the session model (Backtest.v), which the backtest correspondence runs tie to BacktestTradingSession; sessions whose assets have no price yet on some days are judged by a per-close observation predicate on the implementation (a NaN price entering a window is outside the model). Model comparison is limited to lookbacks <= 5 (exact rationals grow with the window); longer lookbacks are compared with the definitions only.",
    design="7/C16", technique="Coq proof (list suffix lemmas, telescoping product by induction, invariant over append sequences) + correspondence check"),
  'C17': dict(
    text="Machine-checked theorems (props/C17.v): cum_t == e_t/e_0; aggregates over any calendar key compound to the total; drawdown == "
